@@ -14,7 +14,7 @@ ASSUMPTIONS = [
     "fixed cells are exempt from splitting in all three operations (the reading under which C02 'fixed cells are never cut' and C12 are jointly satisfiable)",
     "grid post-condition uses the dimensions the cut decision was taken on (x-lines: the original cell's height; y-lines: the cell's final width), so legitimately refused 1% cuts are never flagged",
 ]
-CASES = {"quick": 5000, "thorough": 120000}
+CASES = {"quick": 5000, "thorough": 250000}
 MIN_CASES = {"quick": 1200, "thorough": 25000}
 REQUIRED_COUNTERS = ["predicate_vs_operation_checked", "refine_cells_should_split", "refine_cells_should_stay", "uniform_cells_judged",
                      "grid_cells_judged", "grid_lines_inside_examined", "loop_rounds", "empty_map_cells", "at_threshold_cells", "layout:one_percent"]
